@@ -1,6 +1,8 @@
 import Ark.Generated.FactsEvents
 import Ark.Proofs.Rejects
 import Ark.Props.C08
+import Ark.Props.C09World
+import Ark.Props.C09Batch
 
 namespace Ark.Props.C09
 open Ark
@@ -27,5 +29,62 @@ theorem callbacks_cannot_change_structure_when_locked : type_of% @World.opNewEnt
 
 /-- the callbacks that run are exactly the observers whose predicate holds -/
 theorem callback_set_exact : type_of% @Ark.Props.C08.dispatch_independent_remove := @Ark.Props.C08.dispatch_independent_remove
+
+
+/-! ### World level (Props/C09World): when callbacks run and what they see -/
+
+/-- **C09** for `add`: all records of the notification round are functions of ONE world — the world AFTER the change, in the caller's lock state: the entity is alive with its new component set, others untouched (typed paths: values already written; `Unsafe`: added components still read zero) -/
+theorem world_add_sees : type_of% @Ark.Props.C09World.add_sees := @Ark.Props.C09World.add_sees
+
+/-- **C09** for `newEntity`: all records of the notification round are functions of ONE world — the world AFTER the change, in the caller's lock state: the entity is alive with its new component set, others untouched (typed paths: values already written; `Unsafe`: added components still read zero) -/
+theorem world_newEntity_sees : type_of% @Ark.Props.C09World.newEntity_sees := @Ark.Props.C09World.newEntity_sees
+
+/-- **C09** for `newEntity0`: all records of the notification round are functions of ONE world — the world AFTER the change, in the caller's lock state: the entity is alive with its new component set, others untouched (typed paths: values already written; `Unsafe`: added components still read zero) -/
+theorem world_newEntity0_sees : type_of% @Ark.Props.C09World.newEntity0_sees := @Ark.Props.C09World.newEntity0_sees
+
+/-- **C09** for `copyEntity`: all records of the notification round are functions of ONE world — the world AFTER the change, in the caller's lock state: the entity is alive with its new component set, others untouched (typed paths: values already written; `Unsafe`: added components still read zero) -/
+theorem world_copyEntity_sees : type_of% @Ark.Props.C09World.copyEntity_sees := @Ark.Props.C09World.copyEntity_sees
+
+/-- **C09** for `set`: all records of the notification round are functions of ONE world — the world AFTER the change, in the caller's lock state: the entity is alive with its new component set, others untouched (typed paths: values already written; `Unsafe`: added components still read zero) -/
+theorem world_set_sees : type_of% @Ark.Props.C09World.set_sees := @Ark.Props.C09World.set_sees
+
+/-- **C09** for `emit`: all records of the notification round are functions of ONE world — the world AFTER the change, in the caller's lock state: the entity is alive with its new component set, others untouched (typed paths: values already written; `Unsafe`: added components still read zero) -/
+theorem world_emit_sees : type_of% @Ark.Props.C09World.emit_sees := @Ark.Props.C09World.emit_sees
+
+/-- **C09** for `remove`: all records of the notification round are functions of ONE world — the world BEFORE the change with the lock held: the entity is alive, every entity's components and values are the old ones (those about to be removed are readable), structural operations are rejected, and every query sees the entity exactly once at its old row -/
+theorem world_remove_sees : type_of% @Ark.Props.C09World.remove_sees := @Ark.Props.C09World.remove_sees
+
+/-- **C09** for `removeEntity`: all records of the notification round are functions of ONE world — the world BEFORE the change with the lock held: the entity is alive, every entity's components and values are the old ones (those about to be removed are readable), structural operations are rejected, and every query sees the entity exactly once at its old row -/
+theorem world_removeEntity_sees : type_of% @Ark.Props.C09World.removeEntity_sees := @Ark.Props.C09World.removeEntity_sees
+
+/-- **C09** for `exchange`: all records of the notification round are functions of ONE world — removal round before, addition round after -/
+theorem world_exchange_sees : type_of% @Ark.Props.C09World.exchange_sees := @Ark.Props.C09World.exchange_sees
+
+/-- inside a removal callback the entity occurs exactly once in a query whose filter matches its old mask -/
+theorem world_exact_visits_once : type_of% @Ark.Props.C09World.exact_visits_once := @Ark.Props.C09World.exact_visits_once
+
+/-- … and not at all otherwise -/
+theorem world_exact_visits_none : type_of% @Ark.Props.C09World.exact_visits_none := @Ark.Props.C09World.exact_visits_none
+
+/-- the harness' `query` probe run inside a removal callback records the entity once -/
+theorem world_query_probe_in_removal_callback : type_of% @Ark.Props.C09World.query_probe_in_removal_callback := @Ark.Props.C09World.query_probe_in_removal_callback
+
+/-- the harness' `look` probes form a read-only, log-blind runner -/
+theorem world_harness_runner : type_of% @Ark.Props.C09World.harness_runner := @Ark.Props.C09World.harness_runner
+
+
+/-! ### Batches (Props/C09Batch): all removal callbacks before any entity is changed, all others after all are changed -/
+
+/-- the early exit of the per-row firing loop (`found = false` on the first row) loses no callback -/
+theorem batch_batch_idiom_loses_no_callback : type_of% @Ark.Props.C09Batch.batch_idiom_loses_no_callback := @Ark.Props.C09Batch.batch_idiom_loses_no_callback
+
+/-- `NewBatch`: all creation callbacks run after all entities exist, on a locked world -/
+theorem batch_newBatch_callbacks : type_of% @Ark.Props.C09Batch.newBatch_callbacks := @Ark.Props.C09Batch.newBatch_callbacks
+
+/-- `RemoveEntities`: all removal callbacks run before any entity is removed, on a locked world -/
+theorem batch_removeEntities_callbacks : type_of% @Ark.Props.C09Batch.removeEntities_callbacks := @Ark.Props.C09Batch.removeEntities_callbacks
+
+/-- exchange batches: all removal callbacks on one world in which nothing has moved, then all moves, then all addition callbacks on one world in which everything has moved -/
+theorem batch_exchangeBatch_callbacks : type_of% @Ark.Props.C09Batch.exchangeBatch_callbacks := @Ark.Props.C09Batch.exchangeBatch_callbacks
 
 end Ark.Props.C09
